@@ -1,6 +1,6 @@
 """Shared structural view of the sampling loop (C03, C04, C19): the loop of bench_loop_threaded that broadcasts one
 round of samples per iteration."""
-from lib.facts import direct_place, const_int, origins, place_fields
+from lib.facts import direct_place, const_int, origins, place_fields, norm
 from lib.paths import Explorer
 from lib import tables
 
@@ -145,8 +145,40 @@ class Sampling:
     def _pointee_writers(self, l):
         return []
 
+    def rem_map_decrements(self, l=None):
+        """`rem = rem.map(|r| r.saturating_sub(1))` sites in the loop: [(map Call, closure body, saturating_sub Call)]."""
+        b = self.body
+        out = []
+        for c in b.live_calls():
+            if c.callee != "std::option::Option::map" or c.bb not in self.loop["body"] or len(c.args) != 2:
+                continue
+            if "Option<u32>" not in b.local_ty(c.dest["l"]) or c.dest["proj"]:
+                continue
+            src = self.root_local(c.args[0]["p"]["l"]) if c.args[0]["k"] in ("copy", "move") and not c.args[0]["p"]["proj"] else None
+            # the result is stored back into the variable it was computed from (directly or through one temporary)
+            back = {c.dest["l"]}
+            for bi, si, s in b.stmts():
+                if s["k"] == "assign" and not s["p"]["proj"] and s["rv"]["k"] == "use" and s["rv"]["o"]["k"] in ("copy", "move") and \
+                        not s["rv"]["o"]["p"]["proj"] and s["rv"]["o"]["p"]["l"] == c.dest["l"]:
+                    back.add(s["p"]["l"])
+            if src not in back or (l is not None and src != l):
+                continue
+            cl = None
+            for o in origins(b, c.args[1]):
+                if o[0] == "rvalue" and o[1]["k"] == "agg" and o[1]["ak"] == "closure":
+                    cl = self.prog.bodies.get((b.crate, norm(o[1]["def"]), -1))
+            if cl is None:
+                continue
+            subs = [x for x in cl.live_calls() if x.callee == "core::num::saturating_sub"]
+            if len(subs) == 1 and len(cl.live_calls()) == 1 and subs[0].dest["l"] == 0 and \
+                    {z.label() for z in cl.prov.op_src(subs[0].args[0])} == {"param:" + cl.param_name(2)}:
+                out.append((c, cl, subs[0]))
+        return out
+
     def _is_rem(self, l):
         b = self.body
+        if self.rem_map_decrements(l):
+            return True
         # some `&mut (l as Some).0` pointer is written with saturating_sub(.., 1)
         for bi, si, s in b.stmts():
             if s["k"] == "assign" and s["rv"]["k"] in ("ref", "rawptr") and s["rv"]["p"]["l"] == l:
